@@ -174,7 +174,7 @@ _SP = {}
 
 def _space(tier):
     if tier not in _SP:
-        specs = [(2, False), (3, False), (4, False), (5, False), (2, True), (3, True), (4, True)]
+        specs = [(1, False), (2, False), (3, False), (4, False), (5, False), (2, True), (3, True), (4, True)]
         if tier == "thorough":
             specs.insert(4, (6, False))
         _SP[tier] = gen.GraphSpace(specs)
